@@ -64,6 +64,17 @@ Meaning(type, s) ==
     [] s.k = "neg"  /\ type = "limit"      -> {"U"}     \* Go docs: negative limit = unlimited
     [] s.k = "case" /\ type = "enum"       -> {s.v}     \* enum values SHOULD be case-insensitive
     [] s.k = "partial" /\ type = "map"     -> {s.v}     \* v = id of the well-formed members
+    \* value class HUGE: a syntactically valid integer that no unit conversion can represent (milliseconds that
+    \* overflow the nanosecond clock: 9223372036855, MaxInt64, 2^62, 2^64/10^6 + 1; a batch size near MaxInt).
+    \* Taken at its word it means "longer / larger than anything that will ever be observed": a timeout that never
+    \* limits ("none", or a deadline centuries away: "far"), a schedule delay that never elapses in observable
+    \* time ("late"), a batch that holds everything offered ("all").  Like every out-of-range value it may
+    \* instead be ignored (lower sources / default: AllowedFrom).  What it may NEVER become: a crash, a hang, or
+    \* some other SHORT value (v = what a wrapping multiplication would make of it: neg / zero / pos -- the model
+    \* gives all three the same meaning)
+    [] s.k = "huge" /\ type \in {"timeout", "xtimeout"} -> {"none", "far"}
+    [] s.k = "huge" /\ type = "delay"      -> {"late"}
+    [] s.k = "huge" /\ type = "size"       -> {"all"}
     [] OTHER                               -> {}
 
 (* the ideal resolution *)
@@ -119,16 +130,41 @@ StripSlashes(p) == IF EndsWithSlash(p) THEN StripSlashes(SubSeq(p, 1, Len(p) - 1
 (* path.Clean-like normalisation restricted to trailing slashes *)
 Clean(p) == IF p = "" THEN "" ELSE IF StripSlashes(p) = "" THEN "/" ELSE StripSlashes(p)
 
-Verbatim(p) == IF p = "" THEN "/" ELSE p                  \* signal-specific URL
-Appended(comp, p) == StripSlashes(p) \o SignalPath(comp)  \* generic URL as base
+(* ---- path classes.  A configured path is WRITTEN (in a variable, in a URL handed to WithEndpointURL); what  *)
+(* the statement constrains is the REQUEST TARGET the collector sees on the wire (RFC 9112 origin-form).       *)
+(* Wire(p): the request target of a written path: a character that cannot appear in a request target (the    *)
+(* space) is percent-encoded; everything else stays AS WRITTEN -- in particular an existing percent-escape is  *)
+(* not escaped again ("%20" stays "%20", never "%2520"), an escaped reserved character stays escaped ("%2F" is *)
+(* not the path separator "/", RFC 3986 2.2), sub-delimiters ('+', ';') stay literal.                          *)
+(* WireAll(p): the reading "p is an UNESCAPED path" (only admitted for WithURLPath, whose documentation does   *)
+(* not say whether the argument is escaped): '%' itself is escaped as well.                                     *)
+RECURSIVE WireX(_, _)
+WireX(p, all) ==
+  IF p = "" THEN ""
+  ELSE LET h == SubSeq(p, 1, 1) IN
+       (IF h = " " THEN "%20" ELSE IF all /\ h = "%" THEN "%25" ELSE h) \o WireX(SubSeq(p, 2, Len(p)), all)
+Wire(p) == WireX(p, FALSE)
+WireAll(p) == WireX(p, TRUE)
+(* a written URL may carry a query string: the statement names host and URL path only, whether the query     *)
+(* travels along is left open (both admitted); the PATH part is constrained as always                          *)
+RECURSIVE QPos(_, _)
+QPos(p, i) == IF i > Len(p) THEN 0 ELSE IF SubSeq(p, i, i) = "?" THEN i ELSE QPos(p, i + 1)
+PathPart(p) == IF QPos(p, 1) = 0 THEN p ELSE SubSeq(p, 1, QPos(p, 1) - 1)
+QueryPart(p) == IF QPos(p, 1) = 0 THEN "" ELSE SubSeq(p, QPos(p, 1), Len(p))
+WithQuery(p, targets) == IF QueryPart(p) = "" THEN targets ELSE targets \cup {t \o QueryPart(p) : t \in targets}
+
+Verbatim(p) == IF p = "" THEN "/" ELSE Wire(p)                  \* signal-specific URL
+Appended(comp, p) == Wire(StripSlashes(p)) \o SignalPath(comp)  \* generic URL as base
 
 (* the statement is silent on how option paths are normalised: admit the   *)
 (* literal value and its cleaned form; an option URL without a path may    *)
 (* mean "/" or the signal's default path                                   *)
-OptPaths(comp, p) == IF p = "" THEN {"/", SignalPath(comp)} ELSE {p, Clean(p)}
+OptPaths(comp, p) == IF p = "" THEN {"/", SignalPath(comp)} ELSE {Wire(p), Wire(Clean(p))}
+(* WithURLPath(p): p may also be read as an unescaped path *)
+OptPathOnly(comp, p) == OptPaths(comp, p) \cup (IF p = "" THEN {} ELSE {WireAll(p), WireAll(Clean(p))})
 
 IllFormedURL == {"unparsable", "noscheme", "pathonly", "badurl"}
-PathOf(comp, i, p) == IF i = 2 THEN {Verbatim(p)} ELSE {Appended(comp, p)}
+PathOf(comp, i, p) == WithQuery(p, IF i = 2 THEN {Verbatim(PathPart(p))} ELSE {Appended(comp, PathPart(p))})
 
 (* normalised view of source i (1 = options, 2 = signal variable, 3 = generic variable):
    [k \in {"absent","ok","bad"}, host \in {"", id}, paths = set of admissible paths ({} = none given)] *)
@@ -143,11 +179,10 @@ EPView(comp, i, s, id) ==
   ELSE IF s.k \in IllFormedURL THEN [k |-> "bad", host |-> "", paths |-> {}]
   ELSE IF i = 1 THEN
        CASE s.k = "host"     -> [k |-> "ok", host |-> id, paths |-> {}]
-         [] s.k = "path"     -> [k |-> "ok", host |-> "", paths |-> OptPaths(comp, s.v)]
-         [] s.k = "hostpath" -> [k |-> "ok", host |-> id, paths |-> OptPaths(comp, s.v)]
-         [] s.k = "url"      -> [k |-> "ok", host |-> id, paths |-> OptPaths(comp, s.v)]
-  ELSE IF i = 2 THEN [k |-> "ok", host |-> id, paths |-> {Verbatim(s.v)}]
-  ELSE [k |-> "ok", host |-> id, paths |-> {Appended(comp, s.v)}]
+         [] s.k = "path"     -> [k |-> "ok", host |-> "", paths |-> OptPathOnly(comp, s.v)]
+         [] s.k = "hostpath" -> [k |-> "ok", host |-> id, paths |-> OptPathOnly(comp, s.v)]
+         [] s.k = "url"      -> [k |-> "ok", host |-> id, paths |-> WithQuery(s.v, OptPaths(comp, PathPart(s.v)))]
+  ELSE [k |-> "ok", host |-> id, paths |-> PathOf(comp, i, s.v)]
 
 Ids == <<"O", "S", "G">>
 
